@@ -8,7 +8,7 @@ From FA.Model Require Import Heap Stream.
 From FA.Proofs Require Import HeapFacts StreamFrame StreamExamples.
 From FA.Gen Require TablesCopy.
 From FA.Model Require CopyTree.
-From FA.Proofs Require CopyTreeFacts CopyTreeStore.
+From FA.Proofs Require CopyTreeFacts CopyTreeStore CopyTreeFresh.
 Import ListNotations.
 Open Scope list_scope.
 Open Scope nat_scope.
@@ -85,6 +85,25 @@ Example edits_of_the_copy_example :
   CopyTreeStore.holds (CopyTreeStore.writes CopyTreeStore.ex_store
      [(12, ("Call", ["_old_ast"], [13; 17; 18])); (14, ("Call", [], [15; 19]))]%string) CopyTreeFacts.ex_lambda.
 Proof. exact CopyTreeStore.ex_store_holds. Qed.
+
+(* the copy is a tree of its own: the objects it creates ([own]: everything of the result that is not at or below another
+   stream's node) are exactly the counter values it used, once each, in preorder - no object of the copy sits in two places, so an
+   edit of one node of the copy changes one position of the copied lambda only *)
+Theorem lambda_copy_creates_each_object_once : forall t n,
+  CopyTreeFresh.own (fst (CopyTree.copy t n)) = seq n (snd (CopyTree.copy t n) - n) /\
+  NoDup (CopyTreeFresh.own (fst (CopyTree.copy t n))).
+Proof. exact CopyTreeFresh.copy_creates_each_object_once. Qed.
+Print Assumptions lambda_copy_creates_each_object_once.
+
+Theorem tree_objects_are_own_or_another_streams : forall t i,
+  In i (CopyTree.ids t) <-> In i (CopyTreeFresh.own t) \/ In i (CopyTree.attached t).
+Proof. exact CopyTreeFresh.ids_own_or_attached. Qed.
+Print Assumptions tree_objects_are_own_or_another_streams.
+
+Example lambda_copy_own_objects :
+  CopyTreeFresh.own (fst (CopyTree.copy CopyTreeFacts.ex_lambda 9)) = [9; 10; 11; 12; 13; 14; 15; 16; 17] /\
+  CopyTreeFresh.own (fst (CopyTree.copy CopyTreeFacts.ex_query_in_lambda 6)) = [6; 7; 8].
+Proof. exact CopyTreeFresh.own_of_copies. Qed.
 
 (* the test F52 shipped with (ANY non-field attribute keeps the node) hands the caller's own default-filled call on: refuted *)
 Theorem any_attribute_keep_test_refuted :
